@@ -48,7 +48,9 @@ func baseClientConfig() *plugin.ClientConfig {
 
 // prepare fills in the launch part of ccfg and the plumbing part of pcfg.
 // launch: "cmd" | "runner" | "runner-translate" (custom runner that sees the
-// socket directory under another spelling than the plugin does).
+// socket directory under another spelling than the plugin does) | "runner-ctx" /
+// "runner-ctx-slow" (custom runner whose Kill honours its context, without / with
+// a 400 ms grace period).
 func prepare(caseID int, sub string, pcfg map[string]any, ccfg *plugin.ClientConfig, launch string, extraEnv ...string) *launched {
 	l := &launched{Cfg: ccfg}
 	l.Dir = caseDir(caseID, sub+"p")
@@ -98,6 +100,12 @@ func prepare(caseID int, sub string, pcfg map[string]any, ccfg *plugin.ClientCon
 				return nil, err
 			}
 			pr.HostPrefix, pr.PluginPrefix = hostPrefix, plugPrefix
+			if strings.HasPrefix(launch, "runner-ctx") {
+				pr.KillHonoursCtx = true
+				if launch == "runner-ctx-slow" {
+					pr.KillGrace = 400 * time.Millisecond
+				}
+			}
 			if launch == "runner-translate" {
 				pr.Cmd.Dir = l.Dir
 			}
